@@ -86,8 +86,9 @@ def scanOut (prev : Option Char) (ps : Bool) (ac : Bool) : Str → Bool
                     else true)
               | [] => false)
           else
-            -- after a field's colon: a negative number must end cleanly as well
-            (if c == '-' && prev == some ':' then
+            -- after a field's colon or an occur marker (`+-1.`): a negative number must end
+            -- cleanly as well
+            (if c == '-' && (prev == some ':' || ps) then
               match negativeNumber (c :: rest) with
               | some (_, r) => atEndOrOneOf [')', '^', ']', '}'] r
               | none => true
